@@ -21,13 +21,15 @@ import vlib
 from vlib import enc_str, enc_list, dec_list, dec_str
 
 THEOREMS = [
-    "C16_units", "C16_units_cmd", "C16_split", "C16_split_cmd", "C16_split_pieces", "C16_substr",
-    "C16_substr_total", "C16_substr1", "C16_substr2", "C16_substr_cmd_nopanic", "C16_substr_cmd3",
-    "C16_range", "C16_range_interval", "C16_range_errors", "C16_parse_show", "C16_parse_range", "C16_length",
-    "C16_length_bounds", "C16_indexof", "C16_indexof_none", "C16_last_indexof", "C16_last_indexof_none",
-    "C16_contains", "C16_starts_with", "C16_ends_with", "C16_equals", "C16_is_empty", "C16_concat",
-    "C16_replace", "C16_replace_absent", "C16_replace_same", "C16_trim", "C16_trim_start", "C16_trim_end",
-    "C16_spec_find", "C16_spec_rfind", "C16_spec_slice", "C16_slice", "C16_never_ood", "C16_nonvacuous",
+    "C16_units", "C16_units_cmd", "C16_units_last", "C16_units_cut", "C16_substr_length", "C16_split",
+    "C16_split_cmd", "C16_split_pieces", "C16_substr", "C16_substr_total", "C16_substr1", "C16_substr2",
+    "C16_substr_cmd_nopanic", "C16_substr_cmd3", "C16_range", "C16_range_interval", "C16_range_errors",
+    "C16_parse_show", "C16_parse_range", "C16_parse_grammar", "C16_length", "C16_length_bounds",
+    "C16_indexof", "C16_indexof_none", "C16_last_indexof", "C16_last_indexof_none", "C16_contains",
+    "C16_starts_with", "C16_ends_with", "C16_equals", "C16_is_empty", "C16_concat", "C16_replace",
+    "C16_replace_absent", "C16_replace_same", "C16_trim", "C16_trim_start", "C16_trim_end",
+    "C16_compare_partial", "C16_compare_errors", "C16_calc_partial", "C16_spec_find", "C16_spec_rfind",
+    "C16_spec_slice", "C16_slice", "C16_never_ood", "C16_nonvacuous",
 ]
 
 ALPHA = ["a", "b", "é", "😀", " "]
@@ -136,6 +138,13 @@ def same(m, i):
     """model result vs implementation result; an error whose message text is unknown to the harness
     (E?) matches any error kind: message texts are not part of the property"""
     return m == i or (i == "E?" and m.startswith("E"))
+
+
+def agree(m, i):
+    """used by `vcheck C16 --replay`: outside the modelled domain only a crash is a disagreement"""
+    if m == "OOD":
+        return not (i == "PANIC" or i.startswith("X") or i.startswith("DIED"))
+    return same(m, i)
 
 
 def _boundary(raw, k):
@@ -305,6 +314,13 @@ def run(ck):
     for a in range(-4, 6):
         for b in range(-4, 6):
             add("range", [str(a), str(b)], "range-exh")
+    # overlapping / repeated occurrences: every text of length <= 7 (6 in quick) over {a, b} against every pattern of length <= 3
+    AB = strings_upto(["a", "b"], 7 if thorough else 6)
+    for s in AB:
+        for t in strings_upto(["a", "b"], 3):
+            for cmd in ("indexof", "last_indexof", "split"):
+                add(cmd, [s, t], "overlap-exh")
+            add("replace", [s, t, "é"], "overlap-exh")
     n_exh = len(cases) - n0
 
     # (c) arity and numeric malformations
